@@ -176,6 +176,9 @@ RULES = [
      ("infallible", "inside `.find(|entry| entry.revert_of.is_some())`")),
     (r"lib\.rs", r"^configure_walker$", r"indexing_slicing", r"roots\[0\]", ("unclassified", "")),
     (r"operations/rename\.rs", r"^generate_root_rename_snippet$", r"indexing_slicing", r"root_renames\[0\]", ("unclassified", "")),
+    (r"ambiguity/file_context\.rs", r"^calculate_dominance$", r"unwrap_used", r"in_canonical_order\(style_counts\)",
+     ("infallible", "max_by_key over the counted styles in canonical order: the function has returned for an empty map, and "
+                    "Style::all_styles() lists every variant of the enum, so the vector has an element for every key")),
     (r"ambiguity/", r".", r"indexing_slicing|string_slice|unwrap_used", r".", ("unclassified", "")),
     (r"undo\.rs", r".", r"regex::split_at", r".",
      ("unreachable-from-input", "inside a `#[cfg(windows)]` block (not compiled here); line_end = find('\\n') or len, a character boundary")),
